@@ -360,6 +360,56 @@ static void engine_rings(const Input& in, int ct, int fr, bool pc, bool rev) {
   c.CleanUp();
 }
 
+// ------------------------------------------------------------------------------------------- TrimHorz (model level)
+// The real (file-static) TrimHorz on a hand-built vertex ring: a horizontal edge whose vertex_top is ring[0], followed in the
+// direction of the bound by the other vertices of the ring.  The model (Model/TrimHorz.lean) must predict the new top and how far
+// vertex_top advanced.  Rows are kept short (values from a tiny alphabet) so that long horizontal runs, reversals, spikes and
+// maxima inside / at the end / beyond the run all occur.
+static void trimhorz_records(Rng& g, int n_cases) {
+  for (int it = 0; it < n_cases; ++it) {
+    int n = (int)g.range(2, 9);                       // ring size (vertex_top + n-1 others)
+    std::vector<Vertex> ring((size_t)n);
+    int64_t ytop = g.range(0, 2);
+    int row_len = (int)g.range(0, n - 1);             // how many of the following vertices stay on the row
+    for (int i = 0; i < n; ++i) {
+      ring[(size_t)i].pt = Point64(g.range(0, 6), (i <= row_len) ? ytop : ytop + g.range(1, 3));
+      if (i > row_len && g.chance(25)) ring[(size_t)i].pt.y = ytop;   // the row may be re-entered later
+      ring[(size_t)i].flags = VertexFlags::Empty;
+    }
+    // at most a few local maxima, anywhere (in a real ring the flat top holds exactly one)
+    for (int k = (int)g.range(0, 2); k > 0; --k) ring[(size_t)g.range(0, n - 1)].flags = VertexFlags::LocalMax;
+    if (g.chance(50) && row_len >= 1) ring[(size_t)row_len].flags = VertexFlags::LocalMax;        // the run ends on the maximum
+    bool fwd = g.coin();
+    for (int i = 0; i < n; ++i) {
+      Vertex* a = &ring[(size_t)i]; Vertex* b = &ring[(size_t)((i + 1) % n)];
+      if (fwd) { a->next = b; b->prev = a; } else { a->prev = b; b->next = a; }
+    }
+    Active e;
+    e.wind_dx = fwd ? 1 : -1;
+    e.vertex_top = &ring[0];
+    e.top = ring[0].pt;
+    e.bot = Point64(g.range(0, 6), ytop);
+    if (e.bot.x == e.top.x) e.bot.x += 1;
+    SetDx(e);
+    bool pc = g.coin();
+    std::string req = "TRIMHORZ " + std::string(pc ? "1 " : "0 ") + S(e.bot.x) + " " + S(e.top.x) + " " + S(e.top.y) + " " + std::to_string(n);
+    for (int i = 1; i <= n; ++i) { const Vertex& v = ring[(size_t)(i % n)]; req += " " + S(v.pt.x) + " " + S(v.pt.y) + " " + (IsMaxima(v) ? "1" : "0"); }
+    g_current = req;
+    // a ring whose every vertex is on the row and that holds no maximum would make the real loop spin for ever
+    bool endless = true;
+    for (int i = 0; i < n; ++i) if (ring[(size_t)i].pt.y != ytop || IsMaxima(ring[(size_t)i])) endless = false;
+    if (endless && !pc) { stat("trimhorz.skipped_endless_ring"); continue; }
+    if (endless && pc) { stat("trimhorz.skipped_endless_ring"); continue; }
+    TrimHorz(e, pc);
+    int adv = 0; for (int i = 0; i < n; ++i) if (e.vertex_top == &ring[(size_t)i]) adv = i;
+    // (advancing by a full turn is indistinguishable from 0 by position; the model reports ranOff in that case and the
+    //  generator excludes it: a maximum or an off-row vertex always stops the loop within one turn)
+    emitM("trimhorz", req, S(e.top.x) + " " + S(e.top.y) + " " + std::to_string(adv) + " 0");
+    stat(std::string("trimhorz.") + (pc ? "pc_on" : "pc_off") + (adv == 0 ? ".untouched" : adv == 1 ? ".one" : ".several"));
+    if (adv > 0 && IsMaxima(*e.vertex_top)) stat("trimhorz.stopped_on_maximum");
+  }
+}
+
 int main(int argc, char** argv) {
   Rng g(seed_from_args(argc, argv));
   thorough = thorough_from_args(argc, argv);
@@ -370,6 +420,7 @@ int main(int argc, char** argv) {
   Input in;
   // the HI_PRECISION build repeats only the sections that reach GetSegmentIntersectPt through DoSplitOp at model level
   if (!hi_build) {
+  trimhorz_records(g, thorough ? 60000 : 6000);
   // corpus: hand-picked boundary cases first
   {
     Input k; k.gen = "corpus"; k.cls = 2;
@@ -430,6 +481,63 @@ int main(int argc, char** argv) {
     gen_rectilinear(g, in, step);
     run_input(g, in, i % 4 == 0);
     if (i % 3 == 0) engine_rings(in, (int)g.range(1, 4), (int)g.range(0, 3), g.coin(), g.coin());
+  }
+  // rectilinear families aimed at the horizontal-edge machinery (DoHorizontal / TrimHorz / horizontal joins):
+  //  * staircases: 3-5 simple staircase polygons on a small lattice (long runs of alternating horizontal and vertical edges whose
+  //    output rings keep horizontal stretches from earlier scanlines);
+  //  * flat spikes: the polygons of gen_rectilinear with horizontal 180-degree spikes attached at corners (a horizontal run that
+  //    overshoots a corner and comes back), so that spikes end on flat local maxima / minima.
+  for (int i = 0; i < n_rect; ++i) {
+    in = Input();
+    int64_t step = g.pick(std::vector<int64_t>{1, 1, 2, 1000, (int64_t)1 << 40});
+    if (i % 2 == 0) {
+      int L = (int)g.range(5, 9);
+      auto stair = [&]() {
+        // monotone staircase from (x0,y0) up-right in `k` steps, closed by the L-shaped return along the bottom and the right side
+        Path64 p; int k = (int)g.range(1, 4);
+        int64_t x = g.range(0, L - 2), y = g.range(0, L - 2);
+        int64_t x0 = x, y0 = y;
+        p.emplace_back(x, y);
+        for (int j = 0; j < k; ++j) { y += g.range(1, 2); p.emplace_back(x, y); x += g.range(1, 2); p.emplace_back(x, y); }
+        p.emplace_back(x, y0);
+        (void)x0;
+        rect_transform(g, p);
+        return p;
+      };
+      int ns = (int)g.range(2, 4), nc = (int)g.range(1, 2);
+      for (int j = 0; j < ns; ++j) in.subj.push_back(stair());
+      for (int j = 0; j < nc; ++j) in.clip.push_back(stair());
+      in.gen = "rect.stairs";
+    } else {
+      gen_rectilinear(g, in, 1);
+      auto spike = [&](Path64& p) {
+        if (p.size() < 4) return;
+        for (int rep = (int)g.range(1, 2); rep > 0; --rep) {
+          size_t n = p.size(), i0 = g.next() % n;
+          for (size_t d = 0; d < n; ++d) {
+            size_t i = (i0 + d) % n;
+            const Point64 a = p[(i + n - 1) % n], b = p[i], c = p[(i + 1) % n];
+            if (a.y == b.y && a.x != b.x && b.x == c.x && b.y != c.y) {          // horizontal run arriving at a corner: overshoot, then come back
+              int64_t sg = b.x > a.x ? 1 : -1;
+              p.insert(p.begin() + (long)i, Point64(b.x + sg * g.range(1, 3), b.y));
+              break;
+            }
+            if (a.x == b.x && a.y != b.y && b.y == c.y && b.x != c.x) {          // horizontal run leaving a corner: first go the other way
+              int64_t sg = c.x > b.x ? -1 : 1;
+              p.insert(p.begin() + (long)i + 1, Point64(b.x + sg * g.range(1, 3), b.y));
+              break;
+            }
+          }
+        }
+      };
+      for (auto& p : in.subj) if (g.chance(70)) spike(p);
+      for (auto& p : in.clip) if (g.chance(50)) spike(p);
+      in.gen = "rect.flat-spikes";
+    }
+    scale_paths(in.subj, step); scale_paths(in.clip, step);
+    in.cls = (is_rectilinear(in.subj) && is_rectilinear(in.clip)) ? 2 : 0;
+    if (in.cls != 2) stat("gen.rect.NOT_RECTILINEAR");
+    run_input(g, in, i % 4 == 0);
   }
   for (int i = 0; i < n_deg / 8; ++i) {
     gen_nested(g, in, (int)g.range(1, 8), g.coin());
